@@ -773,7 +773,7 @@ func (t *tracer) traceCall(call *ssa.Call, idx int, path []string) []Origin {
 		sub := &tracer{c: t.c, visited: map[ssa.Value]bool{}, inline: true, depth: t.depth}
 		// the requested field path is resolved inside the callee (constructors
 		// return a fresh object whose fields are stored from the parameters)
-		ros := sub.trace(ret.Results[idx], path)
+		ros := withGuards(sub.trace(ret.Results[idx], path), guardsOf(b))
 		for _, ro := range ros {
 			switch ro.Kind {
 			case "param":
@@ -789,6 +789,8 @@ func (t *tracer) traceCall(call *ssa.Call, idx int, path []string) []Origin {
 					if ro.Sliced {
 						mapped[i].Sliced = true
 					}
+					// the conditions under which the callee returns this value (they speak about the callee's parameters)
+					mapped[i].Guards = append(append([]Guard{}, mapped[i].Guards...), ro.Guards...)
 				}
 				out = append(out, mapped...)
 			case "const", "zero":
